@@ -153,7 +153,7 @@ func workerMain(args []string) int {
 	}
 	resPath := filepath.Join(workdir, "result.json")
 	write := func(done bool) {
-		b, _ := json.Marshal(c.result(done))
+		b := c.resultJSON(done)
 		tmp := resPath + ".tmp"
 		if ioutil.WriteFile(tmp, b, 0644) == nil {
 			os.Rename(tmp, resPath)
@@ -275,6 +275,7 @@ func driverMain(id, tier string) int {
 		return 3
 	}
 	defer os.RemoveAll(base)
+	os.Chmod(base, 0755) // the permission slices serve from here as an unprivileged uid
 
 	exe, _ := os.Executable()
 	if p.Race {
@@ -309,7 +310,7 @@ func driverMain(id, tier string) int {
 			// A process-fatal error (fatal error:, checkptr, stack exhaustion,
 			// race detector abort). The journalled case is the witness.
 			site := fatalSite(o.stderr)
-			if strings.Contains(site, "verifharness") && !strings.Contains(site, "go-webdav.") {
+			if strings.HasPrefix(site, "verifharness:") {
 				m.Inconclusive = append(m.Inconclusive, fmt.Sprintf("shard %d died in harness code (%s): %s", i, o.exit, tail(o.stderr, 2000)))
 			} else {
 				m.AddFinding("fatal|"+site, "worker process died while executing a case: "+o.exit,
@@ -339,7 +340,7 @@ func driverMain(id, tier string) int {
 	for _, k := range keys {
 		f := m.Findings[k]
 		if e, ok := known[id+"\x00"+k]; ok {
-			fmt.Printf("KNOWN-FINDING: property=%s %s [key=%s count=%d]\n", id, oneLine(e.What), k, f.Count)
+			fmt.Printf("KNOWN-FINDING: property=%s key=%q count=%d :: %s\n", id, k, f.Count, oneLine(e.What))
 			knownObserved = append(knownObserved, k)
 			continue
 		}
@@ -407,34 +408,66 @@ func tail(s string, n int) string {
 	return s
 }
 
-// fatalSite finds the first go-webdav (or other non-runtime) frame in the
-// goroutine dump of a crashed worker.
+// fatalSite inspects the goroutine that crashed (the first goroutine block of
+// the dump): it returns the innermost frame that belongs to go-webdav or its
+// codec dependencies, else a "verifharness:" marked frame when only harness
+// code is on that stack, else the innermost non-runtime frame.
 func fatalSite(stderr string) string {
 	lines := strings.Split(stderr, "\n")
-	first := ""
+	inBlock := false
+	var frames []string
 	for _, ln := range lines {
-		if strings.HasPrefix(ln, "\t") || ln == "" || strings.HasPrefix(ln, "goroutine ") {
+		if strings.HasPrefix(ln, "goroutine ") {
+			if inBlock {
+				break
+			}
+			inBlock = true
 			continue
 		}
-		if !strings.Contains(ln, "(") || strings.Contains(ln, " ") && !strings.Contains(ln, "(") {
+		if !inBlock {
+			continue
+		}
+		if ln == "" {
+			if len(frames) > 0 {
+				break
+			}
+			continue
+		}
+		if strings.HasPrefix(ln, "\t") {
 			continue
 		}
 		fn := ln
-		if i := strings.LastIndex(fn, "("); i > 0 {
+		if strings.HasPrefix(fn, "created by ") {
+			fn = strings.TrimPrefix(fn, "created by ")
+			if i := strings.Index(fn, " in goroutine"); i > 0 {
+				fn = fn[:i]
+			}
+		} else if i := strings.LastIndex(fn, "("); i > 0 {
 			fn = fn[:i]
 		}
-		if strings.HasPrefix(fn, "runtime.") || strings.HasPrefix(fn, "runtime/") || strings.HasPrefix(fn, "fatal error") || strings.HasPrefix(fn, "panic") {
-			continue
-		}
-		if !strings.Contains(fn, ".") || strings.ContainsAny(fn, " :") {
+		frames = append(frames, fn)
+	}
+	first := ""
+	harness := ""
+	for _, fn := range frames {
+		if strings.HasPrefix(fn, "runtime.") || strings.HasPrefix(fn, "runtime/") {
 			continue
 		}
 		if first == "" {
 			first = fn
 		}
-		if strings.Contains(fn, "github.com/emersion/go-webdav") && !strings.Contains(fn, "verifharness") {
+		if strings.Contains(fn, "verifharness") {
+			if harness == "" {
+				harness = fn
+			}
+			continue
+		}
+		if strings.Contains(fn, "github.com/emersion/") {
 			return fn
 		}
+	}
+	if harness != "" {
+		return "verifharness:" + harness
 	}
 	if first == "" {
 		return "?"
